@@ -73,6 +73,11 @@ func checkSpec(o *observation) ([]finding, *analysis) {
 		}
 		for pos, f := range frames {
 			s := byFrame[string(f)]
+			if s == nil && foreignFrame(f, o.Nonce) {
+				// a client of another run reached this listener (loopback port reuse): not an observation of this client
+				o.Infra = "a foreign client delivered frames to this scenario's listener"
+				return nil, an
+			}
 			if s == nil {
 				if s2 := byFrameNoLic[noLic(f)]; s2 != nil && len(f) >= frameHdr {
 					add("license_choice:"+mode+":hash", "connection %d frame %d is the pack of send %d (sender %d #%d, per-send license %q, client license %q) but carries license hash %d instead of %d", c.Idx, pos, s2.Sid, s2.Sender, s2.Seq, s2.Lic, defaultLicense, int64(binary.BigEndian.Uint64(f[10:18])), whash.Hash64Str(s2.Eff))
@@ -243,4 +248,17 @@ func decodeCheck(f []byte, s *sendRec) string {
 		return "decoded pack does not re-encode to the received payload"
 	}
 	return ""
+}
+
+// foreignFrame: a well-formed frame whose pack decodes and carries another run's nonce.
+func foreignFrame(f []byte, nonce int32) bool {
+	if len(f) < frameHdr {
+		return false
+	}
+	var p pack.Pack
+	if o := vh.Guard(func() { p = pack.ToPack(f[frameHdr:]) }); !o.OK() || p == nil {
+		return false
+	}
+	tp, ok := p.(*pack.TextPack)
+	return ok && tp.Oid != nonce
 }
